@@ -88,14 +88,15 @@ def breadth(CIJ, source):
     # keep going until the entire graph is explored
     while Q:
         u = Q[0]
+        du = distance[u]
         ns, = np.where(CIJ[u, :])
         for v in ns:
             # this allows the source distance itself to be recorded
             if distance[v] == 0:
-                distance[v] = distance[u] + 1
+                distance[v] = du + 1
             if color[v] == white:
                 color[v] = gray
-                distance[v] = distance[u] + 1
+                distance[v] = du + 1
                 branch[v] = u
                 Q.append(v)
         Q = Q[1:]
